@@ -177,13 +177,6 @@ theorem lookupAssignment_Ok {f : Frame} (m : Maps) {p : Pkt} (h : p.dhcpOff + 24
 
 /-! ### the writing phases: closed forms (`…P`, nested `splice`) and safety -/
 
-/-- the destination MAC `setup_reply_l2_headers` chooses -/
-def l2Dest (f : Frame) (p : Pkt) : List UInt8 :=
-  let flags := UInt16.ofNat (leNat (bytesAt f (p.dhcpOff + 10) 2))
-  let ciaddr := UInt32.ofNat (leNat (bytesAt f (p.dhcpOff + 12) 4))
-  if ((ntohs flags &&& 0x8000) != 0 || ciaddr == 0) = true then List.replicate 6 0xFF
-  else bytesAt f (p.dhcpOff + 28) 6
-
 /-- closed form of `rewriteHeaders` -/
 def rewriteHeadersP (f : Frame) (p : Pkt) (cfg : Bytes) (serverIp giaddr : UInt32) : Frame :=
   let dst := if giaddr != 0 then bytesAt f 6 6 else l2Dest f p
@@ -514,11 +507,6 @@ theorem finish_Ok {f : Frame} {p : Pkt} {optLen : Nat} (wf : p.WF f) (ho : optLe
 
 theorem Pkt.WF.of_length {p : Pkt} {f g : Frame} (wf : p.WF f) (h : g.length = f.length) : p.WF g :=
   ⟨wf.vlan, wf.ip, wf.udp, wf.dhcp, by rw [h]; exact wf.room⟩
-
-/-- `config->server_ip != 0 ? config->server_ip : pool->gateway` -/
-def serverIpOf (cfg pool : Bytes) : UInt32 := if rd32 cfg 8 != 0 then rd32 cfg 8 else rd32 pool 8
-/-- OFFER for DISCOVER, ACK otherwise (i.e. for REQUEST) -/
-def replyTypeOf (msgType : UInt8) : UInt8 := if msgType == DHCP_DISCOVER then DHCP_OFFER else DHCP_ACK
 
 /-- closed form of the transmitted frame -/
 def replyP (f : Frame) (p : Pkt) (msgType : UInt8) (a pool cfg : Bytes) : Frame :=
